@@ -525,7 +525,13 @@ def ladder_errors(method, density, params, v):
 def _run_order(res, method, density, v):
     s, t = VALUATIONS[v % 3]
     for p, params in enumerate(D.points(density, s, t)):
-        errs = ladder_errors(method, density, params, v)
+        try:
+            errs = ladder_errors(method, density, params, v)
+        except Exception as e:  # noqa: BLE001
+            cfg = (method, density, p, v)
+            res.violation(_sig("order", cfg[:3], (), "op:ladder", "exception:" + type(e).__name__), [dict(kind="order", cfg=list(cfg))], "op:ladder", "no exception", "%s: %s" % (type(e).__name__, str(e)[:160]), "exception:" + type(e).__name__)
+            res.executions += 1
+            continue
         res.transitions += len(LADDER)
         res.executions += 1
         orders = [math.log(errs[i] / errs[i + 1], 2.0) if errs[i] > 0 and errs[i + 1] > 0 else float("nan") for i in range(len(errs) - 1)]
@@ -552,7 +558,10 @@ def replay(history):
     if kind == "order":
         method, density, p, v = cfg
         s, t = VALUATIONS[v % 3]
-        errs = ladder_errors(method, density, D.points(density, s, t)[p], v)
+        try:
+            errs = ladder_errors(method, density, D.points(density, s, t)[p], v)
+        except Exception as e:  # noqa: BLE001
+            return [dict(observable="op:ladder", expected="no exception", actual="%s: %s" % (type(e).__name__, str(e)[:160]), mode="exception:" + type(e).__name__)]
         orders = [math.log(errs[i] / errs[i + 1], 2.0) if errs[i] > 0 and errs[i + 1] > 0 else float("nan") for i in range(len(errs) - 1)]
         if all(abs(o - ORDER[method]) <= T_ORDER for o in orders):
             return []
